@@ -1263,5 +1263,7 @@ DV_EXPORT void _dispatch_verif_heap_update(void *h, void *dtp, uint64_t target, 
 DV_EXPORT uint32_t _dispatch_verif_heap_count(void *h) { return ((dispatch_timer_heap_t)h)->dth_count; }
 DV_EXPORT void *_dispatch_verif_heap_slot(void *h, uint32_t idx) { return *_dispatch_timer_heap_get_slot(h, idx); }
 DV_EXPORT void *_dispatch_verif_heap_min(void *h, int hid) { return ((dispatch_timer_heap_t)h)->dth_min[hid]; }
+// reads and clears dth_needs_program (the request to reprogram the kernel timer)
+DV_EXPORT int _dispatch_verif_heap_take_needs_program(void *h) { dispatch_timer_heap_t dth = h; int r = dth->dth_needs_program; dth->dth_needs_program = false; return r; }
 DV_EXPORT uint32_t _dispatch_verif_timer_entry(void *dt, int hid) { return ((dispatch_timer_source_refs_t)dt)->dt_heap_entry[hid]; }
 #endif
